@@ -147,6 +147,8 @@ func (pr *Program) RunAnalyses(prop string) []*Obligation {
 		return out
 	case "C16":
 		return pr.AnalysisC16()
+	case "C17":
+		return pr.AnalysisC17Reset()
 	case "C20":
 		return append(pr.AnalysisC20(pr.C20Derived), pr.AnalysisC20InitOrder()...)
 	}
@@ -1507,4 +1509,97 @@ func (x *Exec) collectReads(n ast.Node, info *types.Info, pkg *PkgInfo, rs map[s
 		}
 		return true
 	})
+}
+
+// AnalysisC17Reset: "for a fixed window size N" rests on every price window being dropped whenever a new fetch-price
+// proposal (the only place N changes) is recorded. Structural obligation on AddFetchPriceRecords: the loop that deletes the
+// window of every asset listed by the market module is reached on every path (it is a direct child of the function body and
+// no return precedes it) and deletes every listed asset (its body is the single delete call, no branch, no skip).
+func (pr *Program) AnalysisC17Reset() []*Obligation {
+	name := "x/bandoracle/keeper.(Keeper).AddFetchPriceRecords/frame#c17-new-proposal-resets-every-window"
+	var fi *FuncInfo
+	for _, f := range pr.Funcs {
+		if f.Obj.Name() == "AddFetchPriceRecords" && strings.HasSuffix(f.Pkg.Path, "/x/bandoracle/keeper") && f.Decl != nil && f.Decl.Body != nil {
+			fi = f
+		}
+	}
+	if fi == nil {
+		return []*Obligation{staticObl(name, "C17", "frame", false, "x/bandoracle/keeper", "function AddFetchPriceRecords not found")}
+	}
+	info := fi.Pkg.P.TypesInfo
+	calleeName := func(e ast.Expr) string {
+		call, ok := unparen(e).(*ast.CallExpr)
+		if !ok {
+			return ""
+		}
+		if sel, ok := unparen(call.Fun).(*ast.SelectorExpr); ok {
+			return sel.Sel.Name
+		}
+		return ""
+	}
+	// variables assigned at top level from GetAllTwa
+	listVars := map[types.Object]bool{}
+	why := "no top-level loop over k.market.GetAllTwa(ctx) that deletes every listed window"
+	ok := false
+	for _, st := range fi.Decl.Body.List {
+		if as, isAs := st.(*ast.AssignStmt); isAs && len(as.Lhs) == 1 && len(as.Rhs) == 1 && calleeName(as.Rhs[0]) == "GetAllTwa" {
+			if id, isId := as.Lhs[0].(*ast.Ident); isId {
+				if o := info.Defs[id]; o != nil {
+					listVars[o] = true
+				} else if o := info.Uses[id]; o != nil {
+					listVars[o] = true
+				}
+			}
+			continue
+		}
+		rs, isRange := st.(*ast.RangeStmt)
+		if !isRange {
+			continue
+		}
+		fromList := calleeName(rs.X) == "GetAllTwa"
+		if id, isId := unparen(rs.X).(*ast.Ident); isId && listVars[info.Uses[id]] {
+			fromList = true
+		}
+		if !fromList {
+			continue
+		}
+		if len(rs.Body.List) != 1 {
+			why = "the purge loop at " + pr.Pos(rs.Pos()) + " does more than delete each listed window"
+			continue
+		}
+		es, isExpr := rs.Body.List[0].(*ast.ExprStmt)
+		if !isExpr || calleeName(es.X) != "DeleteTwaData" {
+			why = "the purge loop at " + pr.Pos(rs.Pos()) + " does not delete each listed window unconditionally"
+			continue
+		}
+		call := unparen(es.X).(*ast.CallExpr)
+		argOK := false
+		if len(call.Args) == 2 {
+			if sel, isSel := unparen(call.Args[1]).(*ast.SelectorExpr); isSel && sel.Sel.Name == "AssetID" {
+				if id, isId := unparen(sel.X).(*ast.Ident); isId && rs.Value != nil {
+					if vid, isV := rs.Value.(*ast.Ident); isV && info.Uses[id] != nil && info.Uses[id] == info.Defs[vid] {
+						argOK = true
+					}
+				}
+			}
+		}
+		if !argOK {
+			why = "the purge loop at " + pr.Pos(rs.Pos()) + " does not delete the window of the listed asset"
+			continue
+		}
+		early := ""
+		ast.Inspect(fi.Decl.Body, func(n ast.Node) bool {
+			if r, isRet := n.(*ast.ReturnStmt); isRet && r.Pos() < rs.Pos() {
+				early = pr.Pos(r.Pos())
+			}
+			return true
+		})
+		if early != "" {
+			why = "a return at " + early + " precedes the purge loop"
+			continue
+		}
+		ok = true
+		why = "every path through AddFetchPriceRecords deletes the window of every asset listed by the market module (loop at " + pr.Pos(rs.Pos()) + ")"
+	}
+	return []*Obligation{staticObl(name, "C17", "frame", ok, pr.Pos(fi.Decl.Pos()), why)}
 }
